@@ -63,7 +63,7 @@ def run_ep(ep: str, script: str, args: list[str], cwd: str, ioenc: str = "utf-8"
 KINDS = ["root-ok", "deleg-ok", "root-skip", "root-replay", "root-unsigned", "root-foreign", "root-raw-sigs", "deleg-unsigned",
          "deleg-foreign", "unknown-role", "type-mismatch", "malformed-untrusted", "malformed-trusted", "not-json", "missing-untrusted", "missing-trusted",
          "no-type", "payload-not-md", "root-junk-sig", "deleg-gpg-sigs", "deleg-ok-unicode-role", "nonroot-trusted-vs-root-offer", "root-ok-bom", "root-ok-dup-members",
-         "typeless-signed-for-role", "empty-type-signed-for-role", "typeless-signed-as-root"]
+         "typeless-signed-for-role", "empty-type-signed-for-role", "typeless-signed-as-root", "root-pair-reversed"]
 
 
 def verify_pairs(rng, n):
@@ -78,7 +78,14 @@ def verify_pairs(rng, n):
         v = root1["signed"]["version"]
         kind = KINDS[(i + shift) % len(KINDS)]
         t, u = root1, None
-        if kind.startswith("root"):
+        if kind == "root-pair-reversed":
+            # a genuine, properly chained pair given the wrong way round: the newer root as the trusted one, its predecessor as the offer — a rollback
+            newer = gen.envelope(gen.root_md(ks, thr, km, 1, version=v + 1))
+            gen.sign_env(newer, ks, True, rng)
+            older = copy.deepcopy(root1)
+            gen.sign_env(older, ks, True, rng)
+            t, u = newer, older
+        elif kind.startswith("root"):
             nv = {"root-skip": v + 2, "root-replay": v}.get(kind, v + 1)
             u = gen.envelope(gen.root_md(ks, thr, km, 1, version=nv))
             if kind in ("root-ok", "root-skip", "root-replay", "root-junk-sig", "root-ok-bom", "root-ok-dup-members"):
@@ -293,7 +300,10 @@ def run(ck: Check) -> None:
         ck.oracle_checks += 1
         ck.count(f"verify-stdout-{cond}:exit{rc}")
         mexit = int(m_.split("exit=")[1]) if "exit=" in m_ else -1
-        if mexit != rc:
+        mnormal = int(model[_i].split("exit=")[1]) if "exit=" in model[_i] else -1
+        # where the report goes (stdout or stderr) is the tool's business: on a stdout that cannot take text the status is the one the model gives for a
+        # failing report, or the ordinary one (theorem failing_stdout_status: 1 or the status reported otherwise)
+        if rc not in (mexit, mnormal):
             ck.mismatch_total += 1
             kk = f"cli-verify-stdout:{cond}:{kind}:impl={rc}:model={mexit}"
             ck.mismatch_kinds[kk] = ck.mismatch_kinds.get(kk, 0) + 1
